@@ -293,8 +293,17 @@ def place(g, finish, placement, P):
         return r
     parent_vis = g.outer + [v for v in g.env if isinstance(v.arr, np.ndarray)]
     if placement == "if":
-        sub = _sub(g, parent_vis)
-        op, ins, attrs = finish(sub)
+        shared = g.chance(4)
+        if shared:
+            # the operands (scale / bias / axes ...) live in the main graph and BOTH branches apply the operator to them: what an adapter
+            # derives from an operand in one branch is not visible in the sibling branch
+            op, ins, attrs = finish(g)
+            parent_vis = g.outer + [v for v in g.env if isinstance(v.arr, np.ndarray)]
+            sub = _sub(g, parent_vis)
+            g.features.add("If:both_branches_share_operands")
+        else:
+            sub = _sub(g, parent_vis)
+            op, ins, attrs = finish(sub)
         x = ins[0]
         r = _emit(sub, op, ins, **attrs)
         if not r:
@@ -303,7 +312,11 @@ def place(g, finish, placement, P):
             r2 = sub.emit(g.pick(["Neg", "Identity"]), [r[0]])
             r = r2 or r
         other = _sub(g, parent_vis)
-        r_o = other.emit(g.pick(["Neg", "Identity", "Abs"]), [x])
+        if shared:
+            r_o = _emit(other, op, ins, **attrs)
+            r_o = r_o and (other.emit("Neg", [r_o[0]]) or r_o)
+        else:
+            r_o = other.emit(g.pick(["Neg", "Identity", "Abs"]), [x])
         if not r_o:
             return None
         if r_o[0].dtype != r[0].dtype:
@@ -1009,7 +1022,7 @@ def run_shard(spec):
                     classes.append("adapter_span:GN")
             if P.get("ref_attr"):
                 classes.append("function:ref_attr")
-        classes += [f for f in sorted(feats) if f in ("If", "Loop", "function", "big_initializer", "name_collision", "symbolic_dims", "captured_by_subgraph", "evaluated_by_ort",
+        classes += [f for f in sorted(feats) if f in ("If", "If:both_branches_share_operands", "Loop", "function", "big_initializer", "name_collision", "symbolic_dims", "captured_by_subgraph", "evaluated_by_ort",
                                                        "value_info", "value_info:inferred", "function:nested", "Loop:scan")]
         if gm.overridable:
             classes.append("has_overridable")
